@@ -19,6 +19,8 @@ import re
 from .core import AnalysisError, ClassInfo, FuncInfo, Program, dotted, unparse, strip_docstring
 
 CHILDREN = 'CHILDREN'
+#: marks, in a children template, a statement on the list of children that is not followed
+OPEN = '?'
 
 
 def _subst(text: str, mapping: dict[str, str]) -> str:
@@ -44,6 +46,7 @@ class AttrRoles:
         #: attribute -> roles of the parameters / attributes its value is computed from
         self.sources: dict[str, set[str]] = {}
         self._local_conv: set[str] = set()
+        self._nested = 0  # depth of conditions / loops around the statement being read
         if self.init is None:
             return
         self.params = self.init.positional_params()[1:]
@@ -140,12 +143,31 @@ class AttrRoles:
                                 benv[k.arg] = self._param_text(k.value, env)
                         self._walk_init(base_init, benv, depth + 1)
                     continue
-                if isinstance(f, ast.Attribute) and f.attr == 'append' and unparse(f.value) == 'self.children' and c.args:
-                    self.children.append(('item', self._canon(c.args[0], env, loopvars)))
+                if isinstance(f, ast.Attribute) and unparse(f.value) == 'self.children':
+                    # the one list of children: append / extend add at the end; any other method leaves the template open
+                    if f.attr == 'append' and len(c.args) == 1 and not c.keywords:
+                        self.children.append(('item', self._canon(c.args[0], env, loopvars)))
+                    elif f.attr == 'extend' and len(c.args) == 1 and not c.keywords:
+                        self._extend(c.args[0], env, loopvars)
+                    elif f.attr == 'clear' and not c.args and not loopvars and not self._nested:
+                        del self.children[:]
+                    else:
+                        self.children.append(('open', unparse(st)[:60]))
                     continue
+                if isinstance(f, ast.Attribute) and isinstance(f.value, ast.Name) and f.value.id == 'self':
+                    # a method of the object called by the constructor: if it touches the list of children, what it adds is not followed
+                    m = self.cls.resolve(f.attr)
+                    if m is not None and _writes_children(m.node):
+                        self.children.append(('open', unparse(st)[:60]))
                 continue
             if isinstance(st, ast.AugAssign) and unparse(st.target) == 'self.children':
-                self.children.append(('extend', self._canon(st.value, env, loopvars)))
+                if isinstance(st.op, ast.Add):
+                    self._extend(st.value, env, loopvars)
+                else:
+                    self.children.append(('open', unparse(st)[:60]))
+                continue
+            if isinstance(st, ast.Delete) and any('self.children' in unparse(t) for t in st.targets):
+                self.children.append(('open', unparse(st)[:60]))
                 continue
             if isinstance(st, (ast.Assign, ast.AnnAssign)):
                 value = st.value
@@ -164,6 +186,7 @@ class AttrRoles:
                             continue
                         if isinstance(tt, ast.Attribute) and isinstance(tt.value, ast.Name) and tt.value.id == 'self':
                             if tt.attr == 'children':
+                                self._store_children(st, value, env, loopvars)
                                 continue
                             selfref = f'self.{tt.attr}' in {unparse(n) for n in ast.walk(value) if isinstance(n, ast.Attribute)}
                             if selfref and tt.attr in self.roles:
@@ -181,6 +204,8 @@ class AttrRoles:
                                     src |= {x for x in r0 if x.startswith('@')} or {f'self.{n.attr}'}
                             self.sources.setdefault(tt.attr, set()).update(src)
                             self._note_conversion(tt.attr, value)
+                        elif isinstance(tt, ast.Subscript) and unparse(tt.value) == 'self.children':
+                            self.children.append(('open', unparse(st)[:60]))
                         elif isinstance(tt, ast.Subscript) and isinstance(tt.value, ast.Attribute) and unparse(tt.value.value) == 'self':
                             role = self._role_of_value(value, env, loopsrc)
                             cur = self.roles.setdefault(tt.value.attr, set())
@@ -199,16 +224,48 @@ class AttrRoles:
                     if src:
                         ls[n] = src.group(1)
                 before = len(self.children)
+                self._nested += 1
                 self._stmts(st.body, init, env, depth, lv, ls)
+                self._nested -= 1
                 new = self.children[before:]
                 del self.children[before:]
                 if new:
                     self.children.append(('loop', it, [lv[n] for n in names], new))
                 continue
             if isinstance(st, ast.If):
+                self._nested += 1
                 self._stmts(st.body, init, env, depth, loopvars, loopsrc)
                 self._stmts(st.orelse, init, env, depth, loopvars, loopsrc)
+                self._nested -= 1
                 continue
+
+    def _extend(self, value: ast.AST, env, loopvars) -> None:
+        """`self.children += value` / `.extend(value)`: a list display adds its elements one by one, anything else is spliced"""
+        if isinstance(value, (ast.List, ast.Tuple)):
+            for e in value.elts:
+                if isinstance(e, ast.Starred):
+                    self._extend(e.value, env, loopvars)
+                else:
+                    self.children.append(('item', self._canon(e, env, loopvars)))
+            return
+        self.children.append(('extend', self._canon(value, env, loopvars)))
+
+    def _store_children(self, st: ast.stmt, value: ast.AST, env, loopvars) -> None:
+        """`self.children = value`: the list starts again from value (Expression.__init__ starts it empty).  Under a condition or in a
+        loop what the list holds afterwards is not followed."""
+        if self._nested or loopvars:
+            self.children.append(('open', unparse(st)[:60]))
+            return
+        if isinstance(value, ast.BinOp) and isinstance(value.op, ast.Add) and unparse(value.left) == 'self.children':
+            self._extend(value.right, env, loopvars)  # self.children = self.children + more
+            return
+        if any(isinstance(n, ast.Attribute) and unparse(n) == 'self.children' for n in ast.walk(value)):
+            self.children.append(('open', unparse(st)[:60]))
+            return
+        del self.children[:]
+        if isinstance(value, ast.Call) and isinstance(value.func, ast.Name) and value.func.id == 'list' and not value.args and not value.keywords:
+            return
+        self._extend(value, env, loopvars)
 
     def _is_conv(self, value: ast.AST) -> bool:
         return any(
@@ -235,6 +292,29 @@ class AttrRoles:
         return render_items(self.children, self.attr_map())
 
 
+def _writes_children(func: ast.AST) -> bool:
+    """the function stores to self.children or calls a method of that list"""
+    for n in ast.walk(func):
+        if isinstance(n, (ast.Assign, ast.AugAssign, ast.AnnAssign, ast.Delete)):
+            targets = n.targets if isinstance(n, (ast.Assign, ast.Delete)) else [n.target]
+            if any(unparse(x) == 'self.children' for t in targets for x in ast.walk(t)):
+                return True
+        if isinstance(n, ast.Call) and isinstance(n.func, ast.Attribute) and unparse(n.func.value) == 'self.children':
+            return True
+    return False
+
+
+def _target_names(t: ast.AST) -> list[str]:
+    """names of a loop target in the order they are written: `(i, e), a` -> i, e, a"""
+    if isinstance(t, ast.Name):
+        return [t.id]
+    if isinstance(t, (ast.Tuple, ast.List)):
+        return [n for e in t.elts for n in _target_names(e)]
+    if isinstance(t, ast.Starred):
+        return _target_names(t.value)
+    return [n.id for n in ast.walk(t) if isinstance(n, ast.Name)]
+
+
 def _strip_convert(e: ast.AST) -> ast.AST:
     """validate_and_convert(x) -> x (the conversion is checked separately)"""
     if isinstance(e, ast.Call) and (dotted(e.func) or '').split('.')[-1] == 'validate_and_convert' and len(e.args) == 1:
@@ -249,6 +329,8 @@ def render_items(items, amap: dict[str, str]) -> str:
             out.append(_subst(it[1], amap))
         elif it[0] == 'extend':
             out.append('*' + _subst(it[1], amap))
+        elif it[0] == 'open':
+            out.append(OPEN + '⟨' + it[1] + '⟩')
         elif it[0] == 'loop':
             out.append(f'⟦for {",".join(it[2])} in {_subst(it[1], amap)}: {render_items(it[3], amap)}⟧')
     return ' ; '.join(out)
@@ -258,12 +340,18 @@ def render_items(items, amap: dict[str, str]) -> str:
 
 
 class RecordTemplate:
-    def __init__(self, prog: Program, func: FuncInfo, amap: dict[str, str], id_attrs: dict[str, str]):
-        """id_attrs: attribute name -> IdManager table (``elementaryIndex`` -> ``elementary_expressions``)"""
+    def __init__(self, prog: Program, func: FuncInfo, amap: dict[str, str], id_attrs: dict[str, str], children: list[str] | None = None,
+                 tuple_fields: dict[str, list[str]] | None = None):
+        """id_attrs: attribute name -> IdManager table (``elementaryIndex`` -> ``elementary_expressions``);
+        children: the references of the first children (those added one by one, before any loop / splice) so that ``self.children[k]``
+        is read as the k-th of them; tuple_fields: canonical iterable -> field names of the named tuples it holds, so that
+        ``for t in X: t.a, t.b`` is read as ``for a, b in X``"""
         self.prog = prog
         self.func = func
         self.amap = amap
         self.id_attrs = id_attrs
+        self.children_items = list(children or [])
+        self.tuple_fields = dict(tuple_fields or {})
         self.acc: str | None = None
         self.listvar: str | None = None
         self.items: list = []
@@ -271,6 +359,7 @@ class RecordTemplate:
         self.emits_children = False
         self.own_last = False
         self.locals: dict[str, str] = {}
+        self.local_ast: dict[str, ast.expr | None] = {}
         self._extract()
 
     # ---- helpers
@@ -279,9 +368,13 @@ class RecordTemplate:
         t = _subst(t, self.locals)
         t = t.replace('self.get_children()', CHILDREN).replace('self.children', CHILDREN)
         t = _subst(t, loopvars)
-        return _subst(t, self.amap)
+        t = _subst(t, self.amap)
+        # CHILDREN[k] is the k-th child when the first children are added one by one
+        return re.sub(r'(?<![\w.])CHILDREN\[(\d+)\]', lambda m: self.children_items[int(m.group(1))] if int(m.group(1)) < len(self.children_items) else m.group(0), t)
 
     def field(self, e: ast.expr, loopvars) -> str:
+        if isinstance(e, ast.Name) and e.id not in loopvars and self.local_ast.get(e.id) is not None:
+            return self.field(self.local_ast[e.id], loopvars)
         if isinstance(e, ast.Call) and isinstance(e.func, ast.Attribute) and not e.args:
             if e.func.attr == 'get_class_name' and unparse(e.func.value) == 'self':
                 return '{CLS}'
@@ -301,7 +394,15 @@ class RecordTemplate:
                     out += str(p.value)
                 elif isinstance(p, ast.FormattedValue):
                     if p.format_spec is not None or p.conversion != -1:
-                        out += '{FMT:' + unparse(p) + '}'
+                        plain = self.field(p.value, loopvars)
+                        fs = p.format_spec
+                        spec = None if fs is None else str(fs.value) if isinstance(fs, ast.Constant) else \
+                            ''.join(str(x.value) for x in fs.values) if isinstance(fs, ast.JoinedStr) and all(isinstance(x, ast.Constant) for x in fs.values) else '?'
+                        # str() of a value is its plain formatting; `:d` of an integer (an id, an index, a length) is the same text
+                        if (p.conversion in (-1, 115) and spec in (None, '')) or (p.conversion == -1 and spec == 'd' and plain.startswith(('{ID:', '{IDX:', '{LEN:'))):
+                            out += plain
+                        else:
+                            out += '{FMT:' + unparse(p) + '}'
                     elif isinstance(p.value, ast.JoinedStr) or (isinstance(p.value, ast.Call) and isinstance(p.value.func, ast.Attribute) and p.value.func.attr == 'join'
                                                                  and isinstance(p.value.func.value, ast.Constant) and p.value.func.value.value == ''):
                         out += self.fmt(p.value, loopvars)  # a text placed in a text is that text
@@ -360,6 +461,41 @@ class RecordTemplate:
         if self.acc is None and not inline:
             raise AnalysisError(f'{self.func.file}:{self.func.line}: {self.func.qualname}: no record accumulator found')
         self._walk(body, {}, self.items)
+        self._normalise(self.items)
+
+    def _normalise(self, items: list) -> None:
+        """equivalent spellings of a loop of the record, brought to the one with unpacked loop variables:
+        `for k in D: .. D[k] ..` and `for k, v in D.items(): .. D[k] ..` are `for k, v in D.items(): .. v ..`;
+        `for t in X: .. t.a .. t.b ..` with X holding named tuples (a, b) is `for a, b in X: .. a .. b ..`"""
+        def texts(sub):
+            return [x for x in sub if x[0] == 'text']
+
+        for n, it in enumerate(items):
+            if it[0] != 'loop':
+                continue
+            _, src, vars_, sub = it
+            if any(x[0] == 'loop' for x in sub):
+                self._normalise(sub)
+                continue
+            body = ''.join(x[1] for x in texts(sub))
+            if len(vars_) == 1:
+                d = int(vars_[0][1:])
+                v, w = f'${d}', f'${d + 1}'
+                used = re.findall(re.escape(v) + r'(?!\d)(\.\w+)?', body)
+                dct = src[:-7] if src.endswith('.keys()') else src
+                fields = self.tuple_fields.get(src)
+                if re.fullmatch(r'[\w@#.]+', dct) and (dct + f'[{v}]') in body and w not in body:
+                    items[n] = ('loop', dct + '.items()', [v, w], [(k, t.replace(dct + f'[{v}]', w)) for k, t in sub])
+                elif fields and used and all(u[1:] in fields for u in used) and not any(f'${d + 1 + i}' in body for i in range(len(fields))):
+                    ren = {f'{v}.{f}': f'${d + i}' for i, f in enumerate(fields)}
+                    pat = re.compile(re.escape(v) + r'(?!\d)\.(\w+)')
+                    # two passes so that `$d.a -> $d` is not taken again for a field access
+                    items[n] = ('loop', src, [f'${d + i}' for i in range(len(fields))],
+                                [(k, pat.sub(lambda m: '\x00' + ren[m.group(0)][1:], t).replace('\x00', '$')) for k, t in sub])
+            elif len(vars_) == 2 and src.endswith('.items()'):
+                dct = src[:-8]
+                if re.fullmatch(r'[\w@#.]+', dct) and (dct + f'[{vars_[0]}]') in body:
+                    items[n] = ('loop', src, vars_, [(k, t.replace(dct + f'[{vars_[0]}]', vars_[1])) for k, t in sub])
 
     def _walk(self, body, loopvars, items):
         for st in body:
@@ -388,6 +524,8 @@ class RecordTemplate:
                         self.emits_children = True
                     self.own_last = False
                 else:
+                    # a local that is assigned once stands for its expression: written in a field it has the role of that expression
+                    self.local_ast[name] = st.value if name not in self.local_ast and name not in self.locals else None
                     self.locals[name] = self.canon(st.value, loopvars)
                 continue
             if isinstance(st, ast.AugAssign) and isinstance(st.target, ast.Name) and isinstance(st.op, ast.Add):
@@ -406,9 +544,23 @@ class RecordTemplate:
                         self.own_last = True
                         continue
                 raise AnalysisError(f'{self.func.file}:{st.lineno}: statement of get_signature not understood: {unparse(st)[:70]}')
+            if isinstance(st, ast.For) and isinstance(st.iter, (ast.List, ast.Tuple)) and isinstance(st.target, ast.Name) and len(st.body) == 1 \
+                    and isinstance(st.body[0], ast.AugAssign) and isinstance(st.body[0].target, ast.Name) and st.body[0].target.id == self.listvar \
+                    and self._is_sig_call(st.body[0].value) is not None and unparse(self._is_sig_call(st.body[0].value)) == st.target.id:
+                # for e in [a, *B, c]: signatures += e.get_signature()  --  the signature of a, of every element of B, of c, in that order
+                for e in st.iter.elts:
+                    if isinstance(e, ast.Starred):
+                        src = self.canon(e.value, loopvars)
+                        self.emitted.append(f'⟦{src}⟧${len(loopvars)}')
+                        if src == CHILDREN:
+                            self.emits_children = True
+                    else:
+                        self.emitted.append(self.canon(e, loopvars))
+                self.own_last = False
+                continue
             if isinstance(st, ast.For):
                 it = self.canon(st.iter, loopvars)
-                names = [n.id for n in ast.walk(st.target) if isinstance(n, ast.Name)]
+                names = _target_names(st.target)
                 lv = dict(loopvars)
                 for i, n in enumerate(names):
                     lv[n] = f'${len(loopvars) + i}'
